@@ -165,6 +165,22 @@ def oracle (rest : List String) : String :=
       let want := before ++ (ts.filter (·.1 == q)).map (fun x => some x.2)
       if after == want then "true" else s!"false want={showItems want}"
     | _, _, _, _ => "bad-op"
+  | "queuenames" :: args =>
+    -- the loader gives a binding the queue it names, `main` when it names none
+    match kv? "cfg" args, kv? "got" args with
+    | some cfg, some got =>
+      let want := (strList cfg).map fun x => match x.splitOn ":" with
+        | [n, q] => n ++ "=" ++ (if q == "-" then "main" else q)
+        | _ => x
+      if strList got == want then "true" else s!"false want={showStrs want}"
+    | _, _ => "bad-op"
+  | "weakstop" :: args =>
+    -- free-running workers (no yield points observed): at most one more task per queue after the stop request
+    match (kv? "q" args).bind natList?, (kv? "ev" args).bind trace? with
+    | some qs, some log =>
+      let bad := qs.filter fun q => stopRequested log && (startsAfterStop q log > 1 || !(exitFinal q log))
+      if bad.isEmpty then "true" else s!"false more-than-one-task-started-after-stop-in-queues-{showNats bad}"
+    | _, _ => "bad-op"
   | "stopped" :: args =>
     -- WaitStopWithTimeout returned before its timeout => every queue worker had exited
     match (kv? "q" args).bind natList?, (kv? "ev" args).bind trace? with
@@ -245,6 +261,7 @@ def step (st : St) (toks : List String) : St × String :=
   | ["filter", q, keep] => match q.toNat?, natList? keep with
     | some q, some keep => apply st (.handlerFilter q 0 keep)
     | _, _ => (st, "bad-op")
+  | ["loadconfig"] => (st, "ok")     -- the real loader accepted the sample configuration (C10's subject)
   | ["log"] => (st, showLog st.s.log)
   | ["allStopped"] => (st, showBool (allStopped st.s))
   | _ => (st, "bad-op")
